@@ -299,4 +299,40 @@ GROUPS += [
         "assumptions": ["prev_hop_checksum starts at None each round and is threaded hop by hop (StateUpdater::new / "
                         "update_for_probe): by reading (outside reach)"],
     },
+    # ------------------------------------------------------------------ thorough-only groups
+    {
+        "id": "T.base_case", "property": "C07", "crate": "core", "tier": "thorough", "stubbing": True,
+        "harnesses": ["c07_base_case_new_satisfies_inv"], "jobs": 1, "timeout_s": 3000, "mem_gb": 24,
+        "functions": ["TracerState::new"], "stubs": [CLOCK_STUB],
+        "bounds": "the real constructor (512-iteration from_fn) for every accepted configuration: base case of the induction",
+    },
+    {
+        "id": "T.slots.c07", "property": ["C07", "C01"], "crate": "core", "tier": "thorough",
+        "harnesses": ["t07_"], "jobs": 8, "timeout_s": 600, "mem_gb": 8, "functions": STATE_FNS,
+        "bounds": "additional window positions (1,254) (255,255) (256,256) (63999,510) (65021,2) / reissue (1,2) (64511,255) (65022,256)",
+    },
+    {
+        "id": "T.send", "property": ["C06", "C09", "C01"], "crate": "core", "tier": "thorough", "stubbing": True,
+        "harnesses": ["t06_send_step_icmp", "t06_send_step_udp"], "jobs": 4, "timeout_s": 1200, "mem_gb": 12,
+        "functions": STRAT_FNS + STATE_FNS, "stubs": [CLOCK_STUB, NET_STUB],
+        "bounds": "additional window positions (65022,0) (1,253) (0,1) (64511,100)",
+    },
+    {
+        "id": "T.send.tcp", "property": ["C06", "C09", "C01", "C07"], "crate": "core", "tier": "thorough", "stubbing": True,
+        "harnesses": ["t06_send_step_tcp"], "jobs": 3, "timeout_s": 1500, "mem_gb": 18,
+        "functions": STRAT_FNS + STATE_FNS, "stubs": [CLOCK_STUB, NET_STUB],
+        "bounds": "additional window positions (1,255) (64511,256) (0,509)",
+    },
+    {
+        "id": "T.recv", "property": ["C01", "C03"], "crate": "core", "tier": "thorough",
+        "harnesses": ["t01_", "t03_duplicate", "t03_never", "t03_skipped", "t03_failed"], "jobs": 6, "timeout_s": 1200,
+        "mem_gb": 12, "functions": STATE_FNS,
+        "bounds": "additional window positions for complete_probe on awaited / complete / not-sent / skipped / failed slots",
+    },
+    {
+        "id": "T.decision", "property": ["C03", "C01"], "crate": "core", "tier": "thorough",
+        "harnesses": ["t03_recv_decision"], "jobs": 8, "timeout_s": 300, "mem_gb": 8,
+        "functions": STRAT_FNS + ["TracerState::in_round"],
+        "bounds": "the remaining 8 response-kind x payload x family combinations (all 18 reachable ones covered with the quick tier)",
+    },
 ]
